@@ -29,6 +29,9 @@ import (
 type state struct {
 	Messages                 []*schema.Message
 	ReturnDirectlyToolCallID string
+	// ReturnDirectlyToolCallPos is 1 + the position of the return-directly call in the assistant message, 0 for
+	// none: the id of a call may be empty or repeated, and the tools node answers the calls in call order
+	ReturnDirectlyToolCallPos int
 }
 
 const (
@@ -209,7 +212,7 @@ func NewAgent(ctx context.Context, config *AgentConfig) (_ *Agent, err error) {
 
 	toolsNodePreHandle := func(ctx context.Context, input *schema.Message, state *state) (*schema.Message, error) {
 		state.Messages = append(state.Messages, input)
-		state.ReturnDirectlyToolCallID = getReturnDirectlyToolCallID(input, config.ToolReturnDirectly)
+		state.ReturnDirectlyToolCallID, state.ReturnDirectlyToolCallPos = getReturnDirectlyToolCallID(input, config.ToolReturnDirectly)
 		return input, nil
 	}
 	if err = graph.AddToolsNode(nodeKeyTools, toolsNode, compose.WithStatePreHandler(toolsNodePreHandle), compose.WithNodeName(ToolsNodeName)); err != nil {
@@ -256,6 +259,13 @@ func buildReturnDirectly(graph *compose.Graph[[]*schema.Message, *schema.Message
 			var msg *schema.Message
 			// a variable of this call: the enclosing function's named result is shared by every run of the agent
 			err := compose.ProcessState[*state](ctx, func(_ context.Context, state *state) error {
+				if pos := state.ReturnDirectlyToolCallPos; pos > 0 {
+					if pos <= len(msgs) {
+						msg = msgs[pos-1]
+					}
+					return nil
+				}
+				// a state restored from a checkpoint written before the position was recorded
 				for i := range msgs {
 					if msgs[i] != nil && msgs[i].ToolCallID == state.ReturnDirectlyToolCallID {
 						msg = msgs[i]
@@ -284,7 +294,7 @@ func buildReturnDirectly(graph *compose.Graph[[]*schema.Message, *schema.Message
 		msgsStream.Close()
 
 		err = compose.ProcessState[*state](ctx, func(_ context.Context, state *state) error {
-			if len(state.ReturnDirectlyToolCallID) > 0 {
+			if state.ReturnDirectlyToolCallPos > 0 || len(state.ReturnDirectlyToolCallID) > 0 {
 				endNode = nodeKeyDirectReturn
 			} else {
 				endNode = nodeKeyModel
@@ -317,18 +327,18 @@ func genToolInfos(ctx context.Context, config compose.ToolsNodeConfig) ([]*schem
 	return toolInfos, nil
 }
 
-func getReturnDirectlyToolCallID(input *schema.Message, toolReturnDirectly map[string]struct{}) string {
+func getReturnDirectlyToolCallID(input *schema.Message, toolReturnDirectly map[string]struct{}) (string, int) {
 	if len(toolReturnDirectly) == 0 {
-		return ""
+		return "", 0
 	}
 
-	for _, toolCall := range input.ToolCalls {
+	for i, toolCall := range input.ToolCalls {
 		if _, ok := toolReturnDirectly[toolCall.Function.Name]; ok {
-			return toolCall.ID
+			return toolCall.ID, i + 1
 		}
 	}
 
-	return ""
+	return "", 0
 }
 
 // Generate generates a response from the agent.
